@@ -8,18 +8,22 @@ from . import typestate
 
 EXPLANATION = (
     "Decides C10's bounded-enumeration clauses from MIR by abstract evaluation (no repository code is run): the accepting "
-    "side (BobState::new, run, into_outcome) and the initiating side (run_alice) are interpreted over their MIR, with every "
-    ".await driven to completion and the environment scripted by an oracle: the frames the peer sends (all sequences up to "
-    "length 2 (quick) / 3 (thorough) over {Init, Sync, Abort, undecodable}, then close), the accept callback's verdict, the "
-    "outcome of each store-handle call (reply / done / error) and whether sending succeeds. (R1) every script returns Ok or "
-    "Err - a panic or a non-evaluable construct is a violation - and into_outcome is evaluated on the state each run leaves "
-    "behind; (R2) result and effects equal the protocol written from the property text (handshake first and once, callback "
-    "asked before anything is processed, Abort / garbage / early close reported as errors, progress threaded through the "
-    "calls, first local failure ends the session with an error, a declining callback never reaches the store handle, the acceptor "
-    "reports the progress of its last step); (R4) the sync gate (shared with C14.R2); (R5) panic-capable sites of the remaining session plumbing (handle_connection, "
-    "connect_and_sync) are audited, the codec and session functions being discharged by the evaluated tables. "
-    "NOT decided: 'never waits forever' when a future never completes (liveness), QUIC stream behaviour, mirrored counters as "
-    "values, interleaving with other actor messages."
+    'side (BobState::new, run, into_outcome) and the initiating side (run_alice) are interpreted over their MIR, with every'
+    ' .await driven to completion and the environment scripted by an oracle: the frames the peer sends (all sequences up to'
+    " length 2 (quick) / 3 (thorough) over {Init, Sync, Abort, undecodable}, then close), the accept callback's verdict, "
+    'the outcome of each store-handle call (reply / done / error) and whether sending succeeds. (R1) every script returns '
+    'Ok or Err - a panic or a non-evaluable construct is a violation - and into_outcome is evaluated on the state each run '
+    'leaves behind; (R2) result and effects equal the protocol written from the property text (handshake first and once, '
+    'callback asked before anything is processed, Abort / garbage / early close reported as errors, progress threaded '
+    'through the calls, first local failure ends the session with an error, a declining callback never reaches the store '
+    'handle, the acceptor reports the progress of its last step); (R4) the sync gate (shared with C14.R2); (R5) panic-'
+    'capable sites of the remaining session plumbing (handle_connection, connect_and_sync) are audited, the codec and '
+    'session functions being discharged by the evaluated tables. (R6) no wait-for cycle between the store actor and the '
+    "live actor (effect analysis over the call graph): the store actor awaits sends into the live actor's replica-event "
+    'queue while handling a sync message, the live actor empties that queue only in its main loop and awaits replies of the'
+    " store actor in its handlers - so the queue must not be bounded. NOT decided: 'never waits forever' when a future "
+    'never completes (liveness), QUIC stream behaviour, mirrored counters as values, interleaving with other actor '
+    'messages.'
 )
 ASSUMPTIONS = ["tokio_util FramedRead/FramedWrite and the QUIC streams are trusted", "the object invariant 'progress is Some' holds when a BobState is created (checked: BobState::new)"]
 
@@ -382,8 +386,64 @@ def r5(ctx):
     C09.panic_audit(ctx, rule="C10.R5", only=re.compile(r"^(net::codec::|<net::codec::|net::handle_connection|net::connect_and_sync)"), sessions_ok=sessions_ok)
 
 
+def r6(ctx):
+    """no wait-for cycle between the two actors of a node (effect analysis over the call graph): while the store actor handles
+    a sync message it sends one event per inserted entry to the live actor's replica-event queue; the live actor empties that
+    queue only in its main loop and awaits replies of the store actor inside its handlers. If the queue is bounded, a message
+    carrying more entries than it holds blocks the store actor on the queue while the live actor blocks on the store actor: the
+    session - and the node - wait forever."""
+    f = ctx.facts
+    new = f.body("engine::live::LiveActor::new")
+    ctx.touch(new)
+    adt = f.adt("engine::live::LiveActor")
+    names = [x["name"] for x in adt["variants"][0]["fields"]]
+    # (1) how the queue is created: the constructor call whose receiver half becomes the field the main loop reads
+    rx_fields = [n for n, x in zip(names, adt["variants"][0]["fields"]) if "async_channel::Receiver<sync::Event>" in x["ty"]]
+    kind = {}
+    for bi, si, s_ in new.statements():
+        if s_["k"] == "assign" and s_["r"][0] == "agg" and s_["r"][1][0] == "adt" and str(s_["r"][1][1]).endswith("LiveActor"):
+            for n in rx_fields:
+                for o in trace(new, s_["r"][2][names.index(n)]):
+                    if o.kind == "call" and "async_channel" in (o.data["f"].get("path") or ""):
+                        kind[n] = o.data["f"].get("name")
+    if len(rx_fields) != 1 or rx_fields[0] not in kind:
+        raise mir.AnchorMissing("expected one async_channel::Receiver<sync::Event> field in LiveActor built from a channel constructor; found %s / %s" % (rx_fields, kind))
+    rxf = rx_fields[0]
+    # (2) the store actor awaits a send into subscribers' channels while it handles a message
+    senders = [(b.path, t) for p_, b in f.bodies.items() if p_.startswith("sync::Subscribers::") for _, t in b.calls()
+               if t["f"].get("name") == "send" and "async_channel::Sender" in (t["f"].get("path") or "") and "sync::Event" in (t["f"].get("full") or "")]
+
+    def reaches_actor(path, depth=8, seen=None):
+        seen = seen or set()
+        if path in seen or depth < 0:
+            return False
+        seen.add(path)
+        top = path.split("::{closure")[0]
+        if top.startswith("actor::Actor::"):
+            return True
+        for cb, _, _ in f.callers().get(top, []):
+            if reaches_actor(cb.path, depth - 1, seen):
+                return True
+        return False
+    blocking = [p_ for p_, t in senders if reaches_actor(p_)]
+    # (3) where the live actor reads the queue, (4) where it awaits the store actor
+    readers = sorted({b.path.split("::{closure")[0] for p_, b in f.bodies.items() if p_.startswith("engine::live::LiveActor::") for _, t in b.calls()
+                      if t["f"].get("name") == "recv" and "async_channel::Receiver" in (t["f"].get("path") or "") and "sync::Event" in (t["f"].get("full") or "")})
+    awaits = sorted({"%s -> %s" % (b.path.split("::{closure")[0].split("::")[-1], t["f"].get("name")) for p_, b in f.bodies.items() if p_.startswith("engine::live::LiveActor::")
+                     for _, t in b.calls() if (t["f"].get("path") or "").startswith("actor::SyncHandle::") and t["f"].get("name") not in ("clone", "metrics")})
+    ctx.check(len(senders) >= 1 and len(readers) >= 1 and len(awaits) >= 4, "C10.R6", new.path, "actors-and-queue-identified",
+              "store actor sends events in %s; live actor reads its queue (field `%s`) in %s and awaits the store actor at %d sites" % (sorted({p_ for p_, _ in senders}), rxf, readers, len(awaits)), new.sp)
+    cycle = kind[rxf] == "bounded" and bool(blocking) and bool(awaits)
+    ctx.check(not cycle, "C10.R6", new.path, "no-wait-for-cycle[store-actor<->live-actor]",
+              "the live actor's replica-event queue is created by async_channel::%s; the store actor awaits Sender::send into it while handling a message (%s); the live actor empties it only in %s and awaits the store actor's replies in its handlers (%s%s): %s"
+              % (kind[rxf], blocking[:2], readers, ", ".join(awaits[:6]), ", ..." if len(awaits) > 6 else "",
+                 "a message with more entries than the queue holds makes both wait for each other" if cycle else "the store actor never waits for the live actor"), new.sp)
+    ctx.floor("C10.R6", 2)
+
+
 def run(ctx):
     ctx.run_rule("C10.R1", r1)
     ctx.run_rule("C10.R2", r2)
     ctx.run_rule("C10.R4", r4)
     ctx.run_rule("C10.R5", r5)
+    ctx.run_rule("C10.R6", r6)
